@@ -8,5 +8,6 @@ CONSTANT Pkts = {0}
 CONSTANT MaxFrames = 3
 CONSTANT MaxCalls = 2
 CONSTANT KMax = 3
+CONSTANT Refilters = {0, 1}
 CONSTRAINT Emit
 CHECK_DEADLOCK FALSE
